@@ -2,10 +2,12 @@
 # Builds the orchestrator and pre-compiles every property package, offline,
 # from the files on disk.
 set -eu
-cd /verif/harness
+ROOT=$(cd "$(dirname "$0")" && pwd)
+export VERIF_DIR="$ROOT"
+cd "$ROOT/harness"
 export GOFLAGS=-mod=mod GOPROXY=off GOSUMDB=off GOTOOLCHAIN=local GOWORK=off
-mkdir -p /verif/bin /verif/evidence /verif/replay
-go build -o /verif/bin/vcheck ./cmd/vcheck
+mkdir -p "$ROOT/bin" "$ROOT/evidence" "$ROOT/replay"
+go build -o "$ROOT/bin/vcheck" ./cmd/vcheck
 go vet ./... >/dev/null 2>&1 || true
 go test -count=1 -run '^$' ./... >/dev/null
 echo "setup ok"
